@@ -48,7 +48,10 @@ pub fn build(enc: Enc, names: &[Vec<u8>], rng: &mut Rng) -> SymTab {
             r.set("st_name", *off as u64);
             r.set("st_value", rng.next_u64());
             r.set("st_size", rng.below(4096));
-            r.set("st_info", (1 << 4) | rng.below(3));
+            // binding and type: mostly the common ones, sometimes any of the defined values (section/file/common/tls
+            // symbols, OS- and processor-specific bindings)
+            let (bind, ty) = if rng.chance(3, 4) { (1, rng.below(3)) } else { (*rng.pick(&[0u64, 1, 2, 10, 13]), *rng.pick(&[0u64, 1, 2, 3, 4, 5, 6, 10, 13])) };
+            r.set("st_info", (bind << 4) | ty);
             r.set("st_other", rng.below(4));
             r.set("st_shndx", rng.below(0x40));
         }
@@ -177,4 +180,26 @@ pub fn gen_names(rng: &mut Rng, max: usize, gnu: bool) -> Vec<Vec<u8>> {
         names.push(base);
     }
     names
+}
+
+/// Give every non-null symbol the same shape (an "archetype": unnamed or named, one symbol type, one section index
+/// class), so that a whole chain or cycle consists of symbols a lookup may treat specially.
+pub fn apply_archetype(tab: &mut SymTab, rng: &mut Rng) -> String {
+    let unnamed = rng.bool();
+    let ty = *rng.pick(&[0u64, 1, 2, 3, 4, 5, 6]);
+    let bind = *rng.pick(&[0u64, 1, 2]);
+    let shndx = *rng.pick(&[0u64, 1, 0xfff1, 0xfff2, 0xffff]);
+    let mut out = Vec::with_capacity(tab.symtab.len());
+    for (i, r) in tab.recs.iter_mut().enumerate() {
+        if i > 0 {
+            if unnamed {
+                r.set("st_name", 0);
+            }
+            r.set("st_info", (bind << 4) | ty);
+            r.set("st_shndx", shndx);
+        }
+        r.encode(tab.enc, &mut out);
+    }
+    tab.symtab = out;
+    format!("all symbols {} type {ty} bind {bind} shndx {shndx:#x}", if unnamed { "unnamed" } else { "named" })
 }
